@@ -165,6 +165,39 @@ def run_sim_case(spec, prop, extra_listeners=(), post=None, **run_kwargs):
     return out
 
 
+class _DepthProbe:
+    """deepest run of consecutive refusals within one update, and the dt sequence of the run"""
+
+    def __init__(self):
+        self.depth = 0
+        self.dts = []
+
+    def on_update_end(self, ctx, res, exc):
+        self.depth = max(self.depth, int(ctx["refusals"]))
+        if res is not None:
+            self.dts.append(float(res.dt))
+
+
+def probe_retry_depth(spec, device):
+    """Runs the case once, unmonitored, with a generous retry budget; returns (R, dts): the largest number of consecutive
+    refusals any step needed and the time steps used. A budget of R - 1 retries... see DESIGN 8e (exact retry budget)."""
+    import copy
+
+    pre = copy.deepcopy(spec)
+    pre["options"]["max_solve_retries"] = 60
+    pre["options"]["output"] = "temp"
+    pre.pop("history", None)
+    pr = _DepthProbe()
+    r0 = sim.run_sim(pre, [pr], device=device)
+    if r0.refused or r0.exception is not None:
+        return None, None
+    try:
+        r0.cleanup()
+    except Exception:
+        pass
+    return pr.depth, pr.dts
+
+
 def apply_history(spec, device):
     """Things that happened to the Device object BEFORE the monitored run (the monitors only watch the run that follows):
     'used' = solved once with other options (terminal pinning toggled, zero field, screening toggled off);
